@@ -412,6 +412,11 @@ pub fn run(ctx: &mut Ctx) {
     ctx.search("limits", limit_strategy, ctx.tier.pick(100_000, 2_000_000), true, eval_limit);
     if ctx.failed() { return; }
     ctx.search("batch", batch_strategy, ctx.tier.pick(60_000, 1_000_000), true, eval_batch);
+    if ctx.failed() { return; }
+    if ctx.tier == crate::core::Tier::Thorough || std::env::var("VERIF_FUZZ").is_ok() {
+        let jobs = ctx.workers.min(16);
+        crate::fuzzrun::campaign(ctx, "libfuzzer-wire", "wire", 400_000, jobs, 4096, 64);
+    }
 }
 
 pub fn replay(id: &str, leg: &str, case: &serde_json::Value) -> i32 {
